@@ -5,6 +5,12 @@ package main
 //
 //	ty := k<kind>; | n<id>;ty | s ty | a<n>;ty | m ty ty | c ty | f<id>; | i<id>; | u | p ty | T | { (name (+|-) ty)* }
 //
+// In op lines a field may also be written `name*ty` with ty = N<name>; or pN<name>; : an EMBEDDED (anonymous) field
+// of that defined struct type (by value or by pointer). Its field name is the type's name, it is exported, and Go
+// promotes the fields of the embedded struct into the selector namespace of the outer one (reflect's FieldByName /
+// VisibleFields see them). The copiers match DIRECT fields only: in observations (and for the model) an embedded
+// field is the ordinary field `<TypeName>+ty` it is for Type.Field(i).
+//
 // In op lines (reflect.StructOf cases) a defined type is written N<name>; and looked up in `namedLib`;
 // in observations every defined type is written n<id>; followed by its underlying type.
 
@@ -181,6 +187,74 @@ type EmbUnexpS struct {
 type EmbUnexpD struct {
 	in4
 	N int
+}
+
+// promoted fields: one side embeds a struct (by value, by pointer, two levels deep) whose field names are DIRECT
+// fields of the other side. The copiers match direct fields by name: a promoted X is not "a field X of the struct".
+type FlatXY struct {
+	X int
+	Y string
+	N int
+}
+type FlatXYQ struct {
+	X int
+	Y string
+	N int
+	Q int
+}
+type PromValS struct {
+	In1
+	N int
+}
+type PromPtrS struct {
+	*In1
+	N int
+}
+type Prom2S struct {
+	EmbS
+	Q int
+}
+type Prom2PtrS struct {
+	*EmbPtrS
+	Q int
+}
+type PromKindS struct {
+	In3
+	N int
+}
+type PromShadowS struct {
+	In2
+	X int
+	N int
+}
+type PromBothD struct {
+	X int
+	In1
+	Y string
+}
+type PromNestS struct {
+	A PromValS
+	P *PromPtrS
+	N int
+}
+type PromNestD struct {
+	A FlatXY
+	P *FlatXY
+	N int
+}
+
+// names that differ only in case are different names (no case folding when fields are matched)
+type CaseVarS struct {
+	Name string
+	ID   int
+	Ab   int
+}
+type CaseVarD struct {
+	NAME string
+	Id   int
+	ID   int
+	AB   int
+	Name string
 }
 type Slices struct {
 	A []int
@@ -448,6 +522,19 @@ var library = []pair{
 	mk[EmbPtrS, EmbPtrD]("embeddedptr"),
 	mk[EmbPtrS, EmbD]("embeddedptrval"),
 	mk[EmbUnexpS, EmbUnexpD]("embeddedunexp"),
+	mk[CaseVarS, CaseVarD]("casevariant"),
+	mk[PromValS, FlatXY]("promval"),
+	mk[PromPtrS, FlatXY]("promptr"),
+	mk[Prom2S, FlatXYQ]("prom2"),
+	mk[Prom2PtrS, FlatXYQ]("prom2ptr"),
+	mk[PromKindS, FlatXY]("promkind"),
+	mk[PromShadowS, FlatXY]("promshadow"),
+	mk[FlatXY, PromValS]("promdst"),
+	mk[FlatXY, PromPtrS]("promdstptr"),
+	mk[EmbS, PromBothD]("promboth"),
+	mk[PromBothD, EmbPtrS]("prombothptr"),
+	mk[PromNestS, PromNestD]("promnested"),
+	mk[PromNestD, PromNestS]("promnesteddst"),
 	mk[Slices, SlicesD]("slices"),
 	mk[Slices, SliceMisD]("slicemismatch"),
 	mk[Maps, MapsD]("maps"),
@@ -693,15 +780,27 @@ func (d *tyDec) ty() reflect.Type {
 		var fs []reflect.StructField
 		for d.peek() != '}' {
 			start := d.pos
-			for d.pos < len(d.s) && d.s[d.pos] != '+' && d.s[d.pos] != '-' {
+			for d.pos < len(d.s) && d.s[d.pos] != '+' && d.s[d.pos] != '-' && d.s[d.pos] != '*' {
 				d.pos++
 			}
 			name := d.s[start:d.pos]
-			exported := d.peek() == '+'
+			mark := d.peek()
 			d.pos++
 			f := reflect.StructField{Name: name, Type: d.ty()}
-			if !exported {
+			switch mark {
+			case '-':
 				f.PkgPath = "github.com/ecodeclub/ekit/zzverif/copier"
+			case '*':
+				// embedded field of a defined struct type (or a pointer to one): named after the type
+				base := f.Type
+				if base.Kind() == reflect.Pointer {
+					base = base.Elem()
+				}
+				if base.Kind() != reflect.Struct || base.Name() == "" {
+					d.fail("embedded field: defined struct type or pointer to one")
+				}
+				f.Name = base.Name()
+				f.Anonymous = true
 			}
 			fs = append(fs, f)
 		}
